@@ -8,6 +8,7 @@ package main
 
 import (
 	"bufio"
+	"bytes"
 	"fmt"
 	"io"
 	"sort"
@@ -172,6 +173,49 @@ func (s *c11Stream) hotOffsets() []int {
 	return out
 }
 
+// c11Regress: a saved stream and cut list; the expectation is the independent
+// reader's sequence of messages for the whole stream.
+func c11Regress(c regressCase) string {
+	if c.S("kind") != "stream" {
+		return "skip: kind " + c.S("kind")
+	}
+	stream := []byte(c.S("wire"))
+	if n := c.I("repeat_header_value_to"); n > 0 {
+		// (long lines are stored compactly: the marker {LONG} stands for n bytes 'v')
+		stream = bytes.ReplaceAll(stream, []byte("{LONG}"), bytes.Repeat([]byte("v"), n))
+	}
+	var exp []*RMsg
+	rd := bufio.NewReaderSize(bytes.NewReader(stream), 1<<20)
+	for {
+		m, err := sipReadStream(rd)
+		if err == io.EOF {
+			break
+		}
+		if err != nil {
+			return "skip: saved stream is not a sequence of well-formed messages for the independent reader: " + err.Error()
+		}
+		exp = append(exp, m)
+	}
+	cutSets := [][]int{c.Ints("cuts"), nil}
+	var every []int
+	for i := 1; i < len(stream); i++ {
+		every = append(every, i)
+	}
+	cutSets = append(cutSets, every) // one byte per read
+	for _, cuts := range cutSets {
+		got, err := c11Decode(stream, cuts)
+		if len(got) != len(exp) {
+			return fmt.Sprintf("%d messages decoded, want %d (loop ended with: %v); cuts=%v", len(got), len(exp), err, c11ShortCuts(cuts))
+		}
+		for i := range exp {
+			if d := prodEqualR(exp[i], got[i]); d != "" {
+				return fmt.Sprintf("message %d of %d: %s; cuts=%v", i+1, len(exp), d, c11ShortCuts(cuts))
+			}
+		}
+	}
+	return ""
+}
+
 func TestC11(t *testing.T) {
 	V.Rule("lab: besides client streams to the listeners, the response streams the proxy reads from TCP connections it opened itself (2-6 statically routed requests reuse one connection to a harness hop, which writes all responses back as one stream in scripted segments; each must reach the user agent once, intact). unit: concatenations of 1-8 generated messages (tiny ones for complete cut enumeration; large ones with header lines up to 20 KiB clustered around the 4096/8192 reader window, bodies up to 60 KiB incl. SIP-looking text and bodies ending in CR/LF, CRLF or LF line ends, 0-3 keep-alive CRLFs around them) decoded through the product's receive loop from a scripted reader that returns exactly the chosen segments; every header-line length within 20 bytes of the first five multiples of the 4096-byte reader window (CRLF and LF, three positions, three segmentations); all single and double cuts for short streams, recipe-generated multi-cuts (random, 1-byte runs, fixed sizes, cuts around every CR/LF/window/body boundary) otherwise; non-trivial = >=2 messages with a cut inside a header line or CRLF, or a line longer than the 4096-byte window; distinct by (stream, segmentation recipe)")
 	V.Assume("header values are compared modulo surrounding SP/HTAB")
@@ -181,6 +225,7 @@ func TestC11(t *testing.T) {
 	// window (the line reader works in window-sized fragments: what matters is
 	// the line length modulo the window), both line ends, long line first /
 	// in the middle / last, a few segmentations
+	V.Regress(t, c11Regress)
 	t.Run("window-lengths", func(t *testing.T) {
 		if V.replay && V.only == "" {
 			return
